@@ -92,6 +92,14 @@ def holds(max_n=2, bias=None):
         # the check's own API threads are consumers: slow motion inside get_message() gets a larger share
         alts += [st.builds(lambda t, f, d: [[t, "line:" + f, 0, d]], st.sampled_from(["consumer-0", "consumer-0", "consumer-1"]),
                            st.sampled_from(["get_message", "get_message", "get_postprocess_recv_message"]), st.sampled_from([0.004, 0.011, 0.03]))] * 2
+    if bias == "two-consumers":
+        # two application threads inside the delivery API and the thread that ends the connection: consumer A pauses inside
+        # get_postprocess_recv_message() until the state machine thread has signalled (close() sets the wake-up event), consumer B
+        # pauses inside get_message() until A has cleared / passed the event
+        alts += [st.builds(lambda a, n1, n2, k1, k2: [[f"consumer-{a}", "line:get_postprocess_recv_message", n1, 2.0, "PSM", k1],
+                                                      [f"consumer-{1 - a}", "line:get_message", n2, 2.0, f"consumer-{a}", k2]],
+                           st.integers(0, 1), st.integers(1, 8), st.integers(1, 8), st.sampled_from(["event.set", "event.set", "lock.released"]),
+                           st.sampled_from(["event.clear", "event.clear", "lock.released"]))] * 3
     if bias == "submitter":
         alts += [st.builds(lambda t, f, d: [[t, "line:" + f, 0, d]], st.sampled_from(["submitter-0", "submitter-0", "submitter-1"]),
                            st.sampled_from(["send_message", "send_messages", "put_message_into_send_queue"]), st.sampled_from([0.004, 0.011, 0.03]))] * 2
